@@ -28,6 +28,9 @@ CLAIMED = {
  "C17": ("Differential harnesses against a reference written from APPNOTE.TXT: data-descriptor width inference for every (crc, csize, usize) x {16,24}-byte descriptor followed by arbitrary bytes; central-directory header build -> parse round trip and idempotence over fully symbolic fields (both sides of the 2^32-1 thresholds).",
          "Trusted: the APPNOTE reference in the harness, engine, z3. Known finding listed in known_findings.jsonl (24-byte descriptor with zero uncompressed size). Deflate, CRC values, real Go/Python readers as programs are outside.",
          "DESIGN.md §4 C17"),
+ "C20": ("One inductive step of the real healthCheck from an arbitrary state satisfying status = max(0, N - consecutive failures) (N any threshold >= 1, <=3 tokens with arbitrary ping outcomes) re-establishes the invariant, which covers histories of any length; Healthy() is compared with its specification over symbolic (disabled, elapsed, interval, status) on a frozen symbolic clock; healthCheckLoop is executed with the Closed channel closed and a bounded number of timer events and must return (loop-bound = hang finding).",
+         "Trusted: engine (select = symbolic choice among ready cases; timers fire at most a harness-given number of times; frozen clock), opaque logging/metrics, z3. Wall-clock timers, prometheus gauges, log text are outside.",
+         "DESIGN.md §4 C20"),
 }
 
 NOT_APPLICABLE = {
